@@ -331,7 +331,12 @@ impl AbsSeg {
 impl AbsMap {
   #[allow(clippy::too_many_arguments)]
   pub fn new(segs: Vec<AbsSeg>, nsrc: u8, nnames: u8, dup_names: bool, content_mode: u8, root: u8, src_base: u8, wild: bool) -> Self {
-    AbsMap { segs, nsrc: nsrc.clamp(1, 3), nnames: nnames.min(3), dup_names, content_mode: content_mode.min(3), root, src_base, wild, allow_dups: false }
+    AbsMap { segs, nsrc: nsrc.clamp(1, 3), nnames: nnames.min(3), dup_names, content_mode: content_mode.min(3), root, src_base, wild, allow_dups: false, wide: 0 }
+  }
+  /// 1: 17-40 sources and names, 2: tables around 256 entries (see `concretize_map`)
+  pub fn widen(mut self, k: u8) -> Self {
+    self.wide = k.min(2);
+    self
   }
   pub fn with_dups(mut self) -> Self {
     self.allow_dups = true;
@@ -365,6 +370,8 @@ pub struct AbsMap {
   wild: bool,
   /// keep a second segment at the same generated position (the first one then has zero extent)
   allow_dups: bool,
+  /// 0 = tables of 1-3 sources / 0-3 names; 1 = 17-40 of each; 2 = 255 / 256 / 257 / 300 of each
+  wide: u8,
 }
 
 pub fn abs_map(cfg: GenCfg) -> impl Strategy<Value = AbsMap> {
@@ -394,10 +401,25 @@ pub fn abs_map(cfg: GenCfg) -> impl Strategy<Value = AbsMap> {
         src_base,
         wild,
         allow_dups: false,
+        wide: 0,
       },
     )
 }
 
+/// Maps with *large tables*: 10-40 segments over 17-40 (level 1) or 255-300 (level 2) sources and names, so that
+/// source / name indices do not fit a nibble / a byte, tables grow past their first capacity and a segment's
+/// indices differ from its predecessor's by multi-digit VLQ deltas.
+pub fn abs_map_wide(cfg: GenCfg) -> impl Strategy<Value = AbsMap> {
+  (abs_map(cfg), vec(abs_seg(), 10..=40), prop_oneof![2 => Just(1u8), 1 => Just(2u8)]).prop_map(|(mut am, segs, level)| {
+    am.segs = segs;
+    am.wide = level;
+    am.nsrc = am.nsrc.max(1);
+    am
+  })
+}
+
+const PAD_LINE: &str = "/* pad */\n";
+const PAD_LINES: u32 = 6600;
 pub const GENERIC_CONTENT: &str = "content a;b\nline2 abc;def\n  xy{fn}\n";
 
 /// Make a concrete map for text `t`.
@@ -407,9 +429,20 @@ pub const GENERIC_CONTENT: &str = "content a;b\nline2 abc;def\n  xy{fn}\n";
 /// columns beyond the text, source and name indices beyond the tables, huge
 /// original lines; original line stays >= 1.
 pub fn concretize_map(t: &str, am: &AbsMap, ascii: bool) -> MapSpec {
-  let nsrc = am.nsrc as usize;
-  let mut sources: Vec<String> =
-    (0..nsrc).map(|i| format!("s{}.js", (am.src_base as usize + i) % 5)).collect();
+  const AROUND_256: [usize; 4] = [255, 256, 257, 300];
+  let nsrc = match am.wide {
+    0 => am.nsrc as usize,
+    1 => 17 + (am.nsrc as usize * 7 + am.src_base as usize) % 24,
+    _ => AROUND_256[(am.nsrc as usize + am.src_base as usize) % 4],
+  };
+  let nnames = match am.wide {
+    0 => am.nnames as usize,
+    1 => 17 + (am.nnames as usize * 5 + am.root as usize) % 24,
+    _ => AROUND_256[(am.nnames as usize + am.root as usize) % 4],
+  };
+  let mut sources: Vec<String> = (0..nsrc)
+    .map(|i| if i < 5 { format!("s{}.js", (am.src_base as usize + i) % 5) } else { format!("w{i}.js") })
+    .collect();
   // now and then a name that repeats the sourceRoot as its own first directory ("rt" + "rt/s0.js")
   if am.src_base == 2 && nsrc >= 1 && matches!(am.root, 1 | 2) && am.nnames % 2 == 0 {
     sources[0] = format!("rt/{}", sources[0]);
@@ -428,12 +461,13 @@ pub fn concretize_map(t: &str, am: &AbsMap, ascii: bool) -> MapSpec {
   }
   // names: "nm<i>", or (every other map) words of the text alphabet, so that a name can really be the text
   // found at an original position (the combined-map rule keeps an outer name only then)
-  let names: Vec<String> = (0..am.nnames as usize)
+  let names: Vec<String> = (0..nnames)
     .map(|i| {
       if am.dup_names {
-        "nm0".to_string()
+        // (large tables: duplicates among many distinct names)
+        format!("nm{}", if am.wide > 0 { i % 7 } else { 0 })
       } else if am.src_base % 2 == 1 {
-        ["a", "fn", "xy"][i % 3].to_string()
+        if i < 3 { ["a", "fn", "xy"][i].to_string() } else { format!("{}{i}", ["a", "fn", "xy"][i % 3]) }
       } else {
         format!("nm{i}")
       }
@@ -446,6 +480,13 @@ pub fn concretize_map(t: &str, am: &AbsMap, ascii: bool) -> MapSpec {
       .iter()
       .enumerate()
       .map(|(i, s)| if i == 0 { t.to_string() } else { format!("{GENERIC_CONTENT}// {s}\n") })
+      .collect(),
+    // "identity behind a large prefix": the first source is PAD_LINES filler lines (more than 64 KiB) followed by the
+    // generated text; segments into it map (l, c) -> (l + PAD_LINES, c)
+    4 => sources
+      .iter()
+      .enumerate()
+      .map(|(i, s)| if i == 0 { format!("{}{t}", PAD_LINE.repeat(PAD_LINES as usize)) } else { format!("{GENERIC_CONTENT}// {s}\n") })
       .collect(),
     // "shifted identity": line k of the first source is two blanks + line k of the generated text
     // cut short by 0 or 1 characters, and the content does not end in a line break; segments into it
@@ -576,9 +617,18 @@ pub fn concretize_map(t: &str, am: &AbsMap, ascii: bool) -> MapSpec {
       } else {
         let src = idx(a.src, nsrc) as u32;
         let identity = am.content_mode == 2 && src == 0 && a.mapped >= 3;
-        let name =
-          if (a.name as usize) < names.len() { Some(a.name as u32) } else { None };
-        if identity {
+        let padded = am.content_mode == 4 && src == 0 && a.mapped >= 2;
+        let name = if am.wide > 0 {
+          // large tables: any entry, chosen independently of the source
+          if a.name < 6 { Some(idx(a.src.rotate_left(5) ^ a.ocol, names.len()) as u32) } else { None }
+        } else if (a.name as usize) < names.len() {
+          Some(a.name as u32)
+        } else {
+          None
+        };
+        if padded {
+          Some(Orig { src, line: l + PAD_LINES, col: c, name })
+        } else if identity {
           Some(Orig { src, line: l, col: c, name })
         } else if am.content_mode == 3 && src == 0 && a.mapped >= 2 {
           Some(Orig { src, line: l, col: c + 2, name })
@@ -653,11 +703,47 @@ pub fn leaf(cfg: GenCfg) -> BoxedStrategy<Spec> {
 /// original text comes from `original_source` and/or the outer sourcesContent
 /// (at least one, the API's precondition).
 pub fn sms_inner(cfg: GenCfg) -> BoxedStrategy<Spec> {
+  sms_inner_with(cfg, abs_map(cfg).boxed(), abs_map(cfg).boxed(), text(cfg.ascii, cfg.max_tokens), text(cfg.ascii, cfg.max_tokens))
+}
+
+/// `sms_inner` whose inner map carries a sourcesContent entry larger than 64 KiB for its first file: that file is a large
+/// filler prefix followed by the (small) original text, and the inner segments into it are the identity shifted down by
+/// the prefix ("identity behind a large prefix", content mode 4).  One case in four instead makes the original text itself
+/// (and the identical first content entry) larger than 64 KiB / 128 KiB.
+pub fn sms_inner_huge(cfg: GenCfg) -> BoxedStrategy<Spec> {
+  let alph: &'static [&'static str] = if cfg.ascii { ALPH } else { ALPH_MB };
+  let big = (vec(any::<u16>(), 3..=12), 0u8..4u8).prop_map(move |(v, k)| {
+    let mut pat: String = v.into_iter().map(|s| alph[idx(s, alph.len())]).collect();
+    pat.push_str("fn a;\n");
+    let want = [65_537usize, 66_000, 70_000, 131_100][k as usize];
+    let mut out = String::with_capacity(want + pat.len());
+    while out.len() < want {
+      out.push_str(&pat);
+    }
+    out
+  });
+  let ident = abs_map(cfg).prop_map(|mut am| {
+    am.content_mode = 2 + am.content_mode % 2;
+    am
+  });
+  let padded = abs_map(cfg).prop_map(|mut am| {
+    am.content_mode = 4;
+    am
+  });
+  prop_oneof![
+    3 => sms_inner_with(cfg, abs_map(cfg).boxed(), padded.boxed(), text(cfg.ascii, cfg.max_tokens), text(cfg.ascii, cfg.max_tokens)),
+    1 => sms_inner_with(cfg, abs_map(cfg).boxed(), ident.boxed(), text(cfg.ascii, cfg.max_tokens), big.boxed()),
+  ]
+  .boxed()
+}
+
+/// `sms_inner` over given strategies for the outer and the inner map (large tables: `abs_map_wide`).
+pub fn sms_inner_with(cfg: GenCfg, outer: BoxedStrategy<AbsMap>, inner: BoxedStrategy<AbsMap>, text: BoxedStrategy<String>, orig: BoxedStrategy<String>) -> BoxedStrategy<Spec> {
   (
-    text(cfg.ascii, cfg.max_tokens),
-    abs_map(cfg),
-    text(cfg.ascii, cfg.max_tokens),
-    abs_map(cfg),
+    text,
+    outer,
+    orig,
+    inner,
     0u8..3u8,
     any::<u16>(),
     0u8..3u8,
@@ -710,6 +796,15 @@ pub fn sms_inner(cfg: GenCfg) -> BoxedStrategy<Spec> {
                   }
                 }
                 last_inner = Some((o.line, o.col));
+                // every other time: where the original text at that position spells one of the outer map's names, the
+                // segment carries that name (the combined map keeps an outer name only then)
+                if *off % 2 == 0 {
+                  if let Some(b) = oall.iter().position(|p| *p == (o.line, o.col)) {
+                    if let Some(k) = map.names.iter().position(|n| !n.is_empty() && orig.get(b..).is_some_and(|rest| rest.starts_with(n.as_str()))) {
+                      o.name = Some(k as u32);
+                    }
+                  }
+                }
               }
               n += 1;
             }
@@ -824,7 +919,70 @@ pub fn replace_stack(cfg: GenCfg) -> BoxedStrategy<Spec> {
 /// wrappers of differing kinds over a small base, i.e. the depth and the stacking of composite types that the
 /// recursive generator (16 nodes wanted, depth <= 3 or 4) produces only rarely.
 pub fn tree(cfg: GenCfg) -> BoxedStrategy<Spec> {
-  prop_oneof![7 => tree_rec(cfg), 1 => tower(cfg)].boxed()
+  prop_oneof![28 => tree_rec(cfg), 4 => tower(cfg), 1 => wide(cfg)].boxed()
+}
+
+/// *Wide* trees (one tree in 33): sizes and counts the recursive generator never reaches.
+/// (a) a ConcatSource of 9-40 small children (leaves, now and then a small composite); (b) a SourceMapSource (plain, or with inner map) whose maps have large
+/// tables (`abs_map_wide`: 17-40 or 255-300 sources and names, 10-40 segments) over a text of up to 40 tokens, bare or under
+/// one wrapper; (c) a ReplaceSource with 17-80 replacements over a pool of up to 40 cut points in a text of up to 30 tokens;
+/// each of them bare or beneath 1-2 further layers of the kinds `tower` stacks.
+pub fn wide(cfg: GenCfg) -> BoxedStrategy<Spec> {
+  let small = GenCfg { max_tokens: cfg.max_tokens.min(3), ..cfg };
+  // (children: mostly leaves, now and then a small composite - whose rope, chunk stream and tables are its own)
+  let child = prop_oneof![5 => leaf(small), 1 => tree_rec(GenCfg { depth: 2, max_children: 3, ..small })];
+  let mut alts: Vec<(u32, BoxedStrategy<Spec>)> =
+    vec![(2, (vec(child, 9..=40), 0u8..5u8).prop_map(|(children, how)| Spec::Concat { how, children }).boxed())];
+  if cfg.sms {
+    let plain = (text(cfg.ascii, 40), abs_map_wide(cfg), 0u8..3u8)
+      .prop_map(move |(text, am, k)| {
+        let map = concretize_map(&text, &am, cfg.ascii);
+        Spec::Sms { text, name: format!("g{k}.js"), map, full: None }
+      })
+      .boxed();
+    let big: BoxedStrategy<Spec> = if cfg.sms_inner {
+      prop_oneof![
+        2 => plain,
+        1 => sms_inner_with(cfg, abs_map_wide(cfg).boxed(), abs_map(cfg).boxed(), text(cfg.ascii, 25), text(cfg.ascii, 25)),
+        1 => sms_inner_with(cfg, abs_map(cfg).boxed(), abs_map_wide(cfg).boxed(), text(cfg.ascii, 25), text(cfg.ascii, 25)),
+      ]
+      .boxed()
+    } else {
+      plain
+    };
+    alts.push((
+      4,
+      (big, 0u8..7u8, leaf(small), repls_for(cfg, 2), 0u8..5u8)
+        .prop_map(move |(s, wrap, sib, (pool, abs), how)| match wrap {
+          0 | 1 => s,
+          2 if cfg.cached => Spec::Cached(Box::new(s)),
+          3 => Spec::Concat { how, children: vec![sib, s] },
+          4 => Spec::Concat { how, children: vec![s.clone(), sib, s] },
+          5 if cfg.replace => {
+            let t = model_text(&s);
+            let repls = concretize_repls(&t, &pool, &abs, cfg.huge_positions);
+            Spec::Replace { inner: Box::new(s), repls }
+          }
+          _ => Spec::Concat { how, children: vec![s, sib] },
+        })
+        .boxed(),
+    ));
+  }
+  if cfg.replace {
+    alts.push((
+      2,
+      (vec(leaf(GenCfg { max_tokens: cfg.max_tokens.max(30), ..cfg }), 1..=2), vec(any::<u16>(), 8..=40), vec(abs_repl(cfg), 17..=80))
+        .prop_map(move |(leaves, pool, abs)| {
+          let base = if leaves.len() == 1 { leaves.into_iter().next().unwrap() } else { Spec::Concat { how: 0, children: leaves } };
+          let t = model_text(&base);
+          let repls = concretize_repls(&t, &pool, &abs, cfg.huge_positions);
+          Spec::Replace { inner: Box::new(base), repls }
+        })
+        .boxed(),
+    ));
+  }
+  // bare, or beneath 1-2 further layers (ReplaceSource cutting into it, CachedSource, Box, ConcatSource with a sibling)
+  (prop::strategy::Union::new_weighted(alts), vec(layer(cfg), 0..=2)).prop_map(move |(s, layers)| normalize(wrap_layers(cfg, s, layers), cfg)).boxed()
 }
 
 /// A chain of 4-8 layers over one leaf or a two-leaf ConcatSource; every layer is a ReplaceSource (0-3 replacements
@@ -832,26 +990,37 @@ pub fn tree(cfg: GenCfg) -> BoxedStrategy<Spec> {
 /// behind or between small sibling leaves.
 pub fn tower(cfg: GenCfg) -> BoxedStrategy<Spec> {
   let small = GenCfg { max_tokens: cfg.max_tokens.min(5), ..cfg };
-  (vec(leaf(small), 1..=2), vec((0u8..9u8, repls_for(cfg, 3), leaf(small), 0u8..5u8), 4..=8))
+  (vec(leaf(small), 1..=2), vec(layer(cfg), 4..=8))
     .prop_map(move |(base, layers)| {
-      let mut s = if base.len() == 1 { base.into_iter().next().unwrap() } else { Spec::Concat { how: 0, children: base } };
-      for (kind, (pool, abs), sib, how) in layers {
-        s = match kind {
-          0 | 1 | 2 if cfg.replace => {
-            let t = model_text(&s);
-            let repls = concretize_repls(&t, &pool, &abs, cfg.huge_positions);
-            Spec::Replace { inner: Box::new(s), repls }
-          }
-          3 | 4 if cfg.cached => Spec::Cached(Box::new(s)),
-          5 => Spec::Boxed(Box::new(s)),
-          6 => Spec::Concat { how, children: vec![s, sib] },
-          7 => Spec::Concat { how, children: vec![sib, s] },
-          _ => Spec::Concat { how, children: vec![s] },
-        };
-      }
-      normalize(s, cfg)
+      let s = if base.len() == 1 { base.into_iter().next().unwrap() } else { Spec::Concat { how: 0, children: base } };
+      normalize(wrap_layers(cfg, s, layers), cfg)
     })
     .boxed()
+}
+
+type Layer = (u8, (Vec<u16>, Vec<AbsRepl>), Spec, u8);
+
+fn layer(cfg: GenCfg) -> impl Strategy<Value = Layer> {
+  let small = GenCfg { max_tokens: cfg.max_tokens.min(5), ..cfg };
+  (0u8..9u8, repls_for(cfg, 3), leaf(small), 0u8..5u8)
+}
+
+fn wrap_layers(cfg: GenCfg, mut s: Spec, layers: Vec<Layer>) -> Spec {
+  for (kind, (pool, abs), sib, how) in layers {
+    s = match kind {
+      0 | 1 | 2 if cfg.replace => {
+        let t = model_text(&s);
+        let repls = concretize_repls(&t, &pool, &abs, cfg.huge_positions);
+        Spec::Replace { inner: Box::new(s), repls }
+      }
+      3 | 4 if cfg.cached => Spec::Cached(Box::new(s)),
+      5 => Spec::Boxed(Box::new(s)),
+      6 => Spec::Concat { how, children: vec![s, sib] },
+      7 => Spec::Concat { how, children: vec![sib, s] },
+      _ => Spec::Concat { how, children: vec![s] },
+    };
+  }
+  s
 }
 
 pub fn tree_rec(cfg: GenCfg) -> BoxedStrategy<Spec> {
